@@ -181,6 +181,32 @@ func c09Tree(n int64, h tlog.Hash) string {
 // no ASCII control characters other than newline, ends in a newline, no empty line inside.
 // (A text that BEGINS with a newline is accepted by the implementation and round-trips; the
 // rule here follows that, see the report.)
+// c09TreeText: whatever ParseTree accepts must be a canonical encoding of what it returns:
+// first line the fixed header, second line exactly the decimal size (non-negative, no sign,
+// no leading zeros), third line a base64 form of the 32-byte hash.
+func c09TreeText(text []byte) string {
+	var t tlog.Tree
+	var err error
+	if p, m := hx.Guard(func() { t, err = tlog.ParseTree(text) }); p {
+		return "ParseTree panics: " + m
+	}
+	if err != nil {
+		return ""
+	}
+	lines := strings.SplitN(string(text), "\n", 4)
+	if len(lines) < 4 || lines[0] != "go.sum database tree" {
+		return fmt.Sprintf("ParseTree accepts %q without the three lines", text)
+	}
+	if t.N < 0 || lines[1] != fmt.Sprint(t.N) {
+		return fmt.Sprintf("ParseTree(%q) returns size %d for the size line %q", text, t.N, lines[1])
+	}
+	h, err := base64.StdEncoding.DecodeString(lines[2])
+	if err != nil || len(h) != 32 || !bytes.Equal(h, t.Hash[:]) {
+		return fmt.Sprintf("ParseTree(%q) returns hash %v for the hash line %q", text, t.Hash, lines[2])
+	}
+	return ""
+}
+
 func c09SpecValidText(text []byte) bool {
 	if !utf8.Valid(text) || len(text) == 0 || text[len(text)-1] != '\n' {
 		return false
@@ -596,6 +622,8 @@ func runC09(c *hx.Ctx) {
 				m = c09MutateBytes(r, text, "\n0123456789=+/Aa\r -")
 			}
 			c.Case("ParseTree", wire.Bytes(m), tlImplParseTree(m))
+			tmsg := c09TreeText(m)
+			c.Check("parse-tree-accepts-only-canonical-size-and-hash", tmsg == "", "", c09In{Op: "treetext", Hex: hex.EncodeToString(m)}, tmsg)
 			if _, err := tlog.ParseTree(m); err == nil {
 				c.Count("parse-tree-variant=accepted")
 			} else {
@@ -722,6 +750,8 @@ func replayC09(raw json.RawMessage) (bool, string) {
 		msg, _, _ = c09Log(in.Sub, int(in.N))
 	case "tree":
 		msg = c09Tree(in.N, h1)
+	case "treetext":
+		msg = c09TreeText(b1)
 	case "record":
 		msg = c09Record(in.N, b1, b2)
 	case "hash":
